@@ -101,7 +101,8 @@ def long_run(idx, path, vc, ac, arate, nfr, cls, base_v, base_a, vstep=None, ast
             # a PES in which a further frame commences carries the PTS of the group's first frame once
             ps.append({"f": f, "m": (2 if f % 5 < 2 else 1) if fr["trk"] == "a" else 1 + (f % 3), "c": 1 + (f % 2),
                        "pall": f % 2 == 0 and not (fr["trk"] == "a" and grp > 1),
-                       "sys": key or f == 1, "psm": key or f == 1, "join": False, "dts": dts, "ride": fr.get("g", 0) > 0})
+                       "sys": key or f == 1, "psm": key or f == 1, "join": False, "dts": dts, "ride": fr.get("g", 0) > 0,
+                       "pph": fr["trk"] == "v" and f % 4 == 3})
 
     for j in range(nfr):
         if vc != "none":
